@@ -25,7 +25,7 @@ def servicesConsistent (ss : List Service) : Bool :=
 /-- What the Netspoc compiler and `checkRaw` are expected to guarantee about a merged target. -/
 def targetWF (T : Config) : Bool :=
   idsNodup (T.policies.map (·.id)) &&
-  T.groups.all (fun g => managed g.id && idsNodup g.addrs) && idsNodup (T.groups.map (·.id)) &&
+  T.groups.all (fun g => managed g.id && idsNodup g.addrs && !g.addrs.isEmpty) && idsNodup (T.groups.map (·.id)) &&
   T.services.all (managed ·.id) && servicesConsistent T.services &&
   T.policies.all fun p => idsNodup (p.rules.map (·.id)) && p.rules.all (refsDefined T)
 
